@@ -70,7 +70,7 @@ def endian_map(prog, f):
 
 def run(ctx, rep):
     prog = ctx.program("default")
-    rep.configs.append("default")
+    rep.configs.append(getattr(ctx, "alias", "default"))
     dep = Dependence(prog)
     impls = [i for i in prog.impls.values() if i.get("trait") == LOADSTORE]
     rep.floor("R11", "LoadStore impls", len(impls), 7)
